@@ -1,5 +1,7 @@
 import Driver.Proto
 import Driver.OpsFit
+import Driver.OpsClt
+import Driver.OpsFlows
 /-
 Line-protocol driver: one JSON object per input line, one answer line per input line.
 Run with `lake env lean --run Driver/Main.lean < ops.jsonl`.
@@ -58,7 +60,9 @@ def handle (st : St) (j : Json) : Except String (St × String) := do
   | o =>
     -- extension handlers (one file per theory); first that owns the op answers
     let exts : List (Option (Except String String)) := [
-      handleFit o j ]
+      handleFit o j,
+      handleClt o j,
+      handleFlows o j ]
     match exts.findSome? id with
     | some r => do let a ← r; pure (st, a)
     | none => .error s!"unknown op {o}"
